@@ -480,14 +480,25 @@ func (n *tnode) targets(full bool) []target {
 				}
 				return d
 			}})
+			// "tuple | *struct | struct fields are set in order of declaration". For an
+			// element whose Go type is itself a pointer (varint -> *big.Int, decimal ->
+			// *inf.Dec) unmarshalTuple's struct branch panics on every input, valid ones
+			// included (it assigns a **T to the *T field): a functional defect that does
+			// not depend on the bytes, hence not C05's; such tuples get no struct target.
 			var fs, pfs []reflect.StructField
+			structOK := true
 			for i, t := range kt {
+				if t.Kind() == reflect.Ptr {
+					structOK = false
+				}
 				fs = append(fs, reflect.StructField{Name: fmt.Sprintf("F%d", i), Type: t})
 				pfs = append(pfs, reflect.StructField{Name: fmt.Sprintf("F%d", i), Type: reflect.PtrTo(t)})
 			}
-			st, pst := reflect.StructOf(fs), reflect.StructOf(pfs)
-			ts = append(ts, target{"*struct{T...}", func() interface{} { return reflect.New(st).Interface() }})
-			ts = append(ts, target{"*struct{*T...}", func() interface{} { return reflect.New(pst).Interface() }})
+			if structOK {
+				st, pst := reflect.StructOf(fs), reflect.StructOf(pfs)
+				ts = append(ts, target{"*struct{T...}", func() interface{} { return reflect.New(st).Interface() }})
+				ts = append(ts, target{"*struct{*T...}", func() interface{} { return reflect.New(pst).Interface() }})
+			}
 			add(reflect.TypeOf([]interface{}(nil)), reflect.ArrayOf(len(kt), tIface))
 		}
 	case gocql.TypeUDT:
